@@ -51,6 +51,14 @@ def s_arity(tier):
     for k in ALLOPS:
         for n in counts:
             out.append(("count", k, n, app({k: [good_operand(k, i) for i in range(n)]}, {"a": 1, "b": None})))
+    # surplus / missing operands spelled as literal null, false, [], "" (must not be "trimmed" or defaulted)
+    for k in ALLOPS:
+        for n in range(0, 7):
+            for filler in (None, False, [], ""):
+                base = 0
+                while base < n and not DOC[k](base): base += 1            # smallest documented count (if any below n)
+                ops_ = [good_operand(k, i) if i < base else filler for i in range(n)]
+                out.append(("count-filler", k, n, app({k: ops_}, {"a": 1, "b": None})))
     bare = [1, 0, "a", "", None, True, 1.5, {"var": "a"}, {"a": 1}, {}, {"log": "x"}, "abc", -1, {"unknown": 1}]
     for k in ALLOPS:
         for x in bare:
@@ -101,6 +109,14 @@ def s_literals(g, tier):
                       ("all-pred", lambda c: {"all": [[1], c]}), ("some-nested", lambda c: {"some": [[c], True]}), ("none-inner", lambda c: {"none": [[[sv]], {"var": ""}]})):
             for c in (lit, nested, {"a": 1, "b": sv}, [{"k": sv, "k2": 1}]):
                 out.append(("inert", k, app(mk(c), d0)))
+    # an operator-keyed single-key object is never a literal, whatever its operands: wrong counts / unbracketed operands are errors
+    for k in ALLOPS:
+        for n in range(0, 5):
+            out.append(("op", k, app({k: [good_operand(k, i) for i in range(n)]}, {"a": 1, "b": None})))
+        for x in (1, "a", None, {"var": "a"}, {"==": [1]}):
+            out.append(("op", k, app({k: x}, {"a": 1})))
+        out.append(("op", k, app({"cat": ["x", {k: []}]}, None)))
+        out.append(("op", k, app({"var": [{k: [1, 2, 3, 4, 5]}]}, {"a": 1})))
     # dispatch: every operator name with a simple valid call is an operation (differs from the literal)
     for k in ALLOPS:
         n = 2 if DOC[k](2) else (3 if DOC[k](3) else 1)
@@ -113,11 +129,29 @@ ATOMS5 = [True, 1, "a", [0], False, 0, "", None, {"var": "t"}, {"var": "f"}, {"v
           {"or": [0, {"log": ""}]}, {"cat": "x"}, {"!": {"log": []}}, [], {}]
 
 
+def nested_if(g, depth):
+    """random nested if/?: trees with 0..5 operands per level; leaves are distinguishable strings, conditions literals/vars/logs"""
+    r = g.r
+    if depth <= 0 or r.random() < 0.25:
+        return r.choice(["x", "y", "z", 1, 0, None, {"log": "leaf"}, {"var": "t"}, {"var": "f"}])
+    n = r.choice([1, 2, 2, 3, 3, 3, 4, 5])
+    ops_ = []
+    for i in range(n):
+        is_cond = (i % 2 == 0 and i + 1 < n)
+        if is_cond:
+            ops_.append(r.choice([True, False, 0, 1, {"var": "t"}, {"var": "f"}, "", "a"]) if r.random() < 0.7 else nested_if(g, depth - 1))
+        else:
+            ops_.append(nested_if(g, depth - 1))
+    return {r.choice(["if", "if", "?:"]): ops_}
+
+
 def s_control(g, tier):
     """C05: operand lists of length 0..7 over literals, data references, nested control flow, poisoned expressions"""
     d = {"t": "yes", "f": 0}
     out = []
     small = ATOMS5
+    for _ in range(4000 if tier == "quick" else 80000):
+        out.append(app(nested_if(g, g.r.randint(2, 4)), d))
     for k in ("if", "?:", "and", "or"):
         for n in range(0, 4 if tier == "quick" else 5):
             for combo in itertools.product(small[:12] + small[14:16] if n == 3 and tier == "quick" else small, repeat=n) if n <= 3 else []:
@@ -309,7 +343,8 @@ def s_missing(g, tier):
     out = []
     datas = [{"a": 1, "b": None, "c": "", "d": [], "e": {"f": 0, "g": None}, "l": [1, None], "0": "z", "s": "str"}, [1, None, [2]], "text", None, {}, 5,
              {"a.b": 1, "a": {"b": 2}}, {"name": "Zoë", "s": "héllo😀", "l": ["日本語"]}, "héllo", "日本"]
-    keylists = [["name.2", "name.3", "name.-3", "name.-4"], ["s.5", "s.6", "s.9", "s.-6", "s.-7", "s.-10"], ["l.0.2", "l.0.3", "l.0.8", "l.0.-3", "l.0.-4", "l.0.-9"],
+    keylists = [["name.2.0", "name.0.0", "name.2.0.0", "name.2.1", "name.3.0", "name.-1.0", "name.-1.-1", "s.1.0.0.0"], ["0.0", "0.0.0", "0.1", "1.0", "-1.0.0"], ["l.0.0.0", "l.0.2.0", "l.0.3.0"],
+                ["name.2", "name.3", "name.-3", "name.-4"], ["s.5", "s.6", "s.9", "s.-6", "s.-7", "s.-10"], ["l.0.2", "l.0.3", "l.0.8", "l.0.-3", "l.0.-4", "l.0.-9"],
                 [4, 5, 6, -5, -6, -7], [1, 2, 3, 5, 6, -2, -3, -6], [], ["a"], ["zz"], ["a", "zz"], ["zz", "a", "yy"], ["a", "a", "b"], ["zz", "zz", "a"], ["zz", "yy", "zz", "yy"], ["b", "c", "d"], ["e.f", "e.g", "e.h"],
                 ["l.0", "l.1", "l.2", "l.-1"], [0, 1, 2, 3, -1], [None, "a", None, "zz"], ["", "a"], [None], ["a.b", "a\\.b"], ["s.0", "s.9"], [0, "0", 0],
                 ["zz", 1.5], [True], [["a"]], [{}], ["a", {"x": 1}], [I64MIN, I64MAX, U64MAX], [2 ** 63], ["e", "e.f", "e.zz"]]
@@ -328,7 +363,8 @@ def s_missing(g, tier):
             out.append(app({"missing_some": [1, "a"]}, d)); out.append(app({"missing_some": [1, None]}, d))
             # cross-check against var with a fresh sentinel on the same data (compared by the check, impl vs impl)
     for d in datas:
-        for k in ["a", "b", "c", "zz", "e.g", "e.h", "l.1", "l.2", 0, 1, 5, "", None, "s.0", "s.9", "a.b", "a\\.b"]:
+        for k in ["a", "b", "c", "zz", "e.g", "e.h", "l.1", "l.2", 0, 1, 5, "", None, "s.0", "s.9", "a.b", "a\\.b", "s.0.0", "s.1.0.0", "name.2.0", "name.3.0", "0.0", "0.0.0", "l.0.0", "l.0.0.0",
+                  "s.-1.0", "name.-1.-1", "l.0.2.0"]:
             out.append(("xvar", app({"missing": [k]}, d), app({"var": [k, "@@sentinel@@"]}, d)))
     n = 1500 if tier == "quick" else 30000
     for _ in range(n):
@@ -342,9 +378,10 @@ def s_missing(g, tier):
 def s_hof(g, tier):
     """C13"""
     out = []
-    colls = [[], [1, 2, 3], [0, 1, "", "a", None, [], [0], {}, {"a": 1}], [[1, 2], [3], []], [{"a": 1, "b": [1]}, {"a": 2}], None, "abc", 5, {}, True, {"a": 1},
+    colls = [[{"a": 1}, {"b": 2}, {"a": None, "b": 1}, {}], [[1], [], [1, 2]], [], [1, 2, 3], [0, 1, "", "a", None, [], [0], {}, {"a": 1}], [[1, 2], [3], []], [{"a": 1, "b": [1]}, {"a": 2}], None, "abc", 5, {}, True, {"a": 1},
              [{"var": "x"}, {"+": [1, 2]}], ["é", "😀"], [1.5, -0.0, 2 ** 53 + 1]]
-    exprs = [{"var": ""}, {"var": "a"}, {"*": [{"var": ""}, 2]}, 1, None, {"var": "outer"}, {"cat": [{"var": ""}, "!"]}, {"!": [{"var": ""}]}, {"var": "current"},
+    exprs = [{"missing": ["a"]}, {"missing_some": [1, ["a", "b"]]}, {"!": [{"missing": ["a"]}]}, {"missing": [0]}, {"cat": [{"missing": ["a", "b"]}]},
+             {"var": ""}, {"var": "a"}, {"*": [{"var": ""}, 2]}, 1, None, {"var": "outer"}, {"cat": [{"var": ""}, "!"]}, {"!": [{"var": ""}]}, {"var": "current"},
              {"map": [{"var": ""}, {"var": ""}]}, {"filter": [{"var": "b"}, {"var": ""}]}, {"==": [1]}, {"+": ["x"]}, {"log": {"var": ""}}, [{"var": ""}], {"var": 0},
              {"if": [{"var": ""}, "T", "F"]}, {">": [{"var": ""}, 1]}, {"var": ["zz", {"var": ""}]}, {"reduce": [{"var": ""}, {"+": [{"var": "current"}, {"var": "accumulator"}]}, 0]}]
     outer = {"outer": "OUT", "a": "outer-a", "current": "outer-cur", "accumulator": "outer-acc", "xs": [1, 2, 3]}
